@@ -270,9 +270,15 @@ func (repo *Repository) GetVerifyOnlyLocatorHashes(ctx context.Context) ([]bitco
 
 func removeDuplicateHashes(hashes []bitcoin.Hash32) []bitcoin.Hash32 {
 	result := make([]bitcoin.Hash32, 0, len(hashes))
-	var previousHash bitcoin.Hash32
-	for i, hash := range hashes {
-		if i != 0 && previousHash.Equal(&hash) {
+	for _, hash := range hashes {
+		found := false
+		for _, existing := range result {
+			if existing.Equal(&hash) {
+				found = true
+				break
+			}
+		}
+		if found {
 			continue
 		}
 		result = append(result, hash)
